@@ -31,6 +31,8 @@ pub fn c01_shapes(thorough: bool, seed: u64) -> Vec<Shape> {
         Shape::new("phase2_unpaired_alloc_tail", &[Commit], &[&[Chal, Alloc, Con]]),
         Shape::new("two_commits_two_gates", &[Commit, Commit, AllocMul, Mul, Con], &[]),
         Shape::new("gate_between_paired_allocations", &[Alloc, AllocMul, Alloc, Con], &[]),
+        Shape::new("pending_allocation_across_two_closures", &[Commit, AllocMul], &[&[Chal, Alloc], &[Alloc, Con]]),
+        Shape::new("two_different_closures", &[Commit, AllocMul, Con], &[&[Chal, Mul, Con], &[Chal, Msg("second".into()), AllocMul, AllocMul, Con]]),
     ];
     if thorough {
         v.push(Shape::new("five_gates_pad8", &[Commit, AllocMul, AllocMul, Mul, Alloc, Alloc, Con], &[&[Chal, AllocMul, Con]]));
